@@ -20,15 +20,17 @@ Print Assumptions C06_refuse.
    top of `cleaned` = the old group minus nodes, edges and the geff attribute (C05_reject_frame: nothing else is touched;
    for a path that held nothing else the path is recreated).  The result validates and reads back as exactly the new
    graph: no property, array or metadata field of the previous graph survives. *)
+From Geff Require ModelDomain.
+(* ModelDomain.in_domain: usable property names, no bytes arrays -- where the tree model is faithful (see C01_roundtrip) *)
 Theorem C06_replace : forall k a ch g md md' n e,
   ahas "geff" a = true -> (k = KPath \/ k = KObj) ->
-  wf_input g md n e -> final_metadata g md = Ok md' ->
+  wf_input g md n e -> ModelDomain.in_domain g md -> final_metadata g md = Ok md' ->
   let post := layout (cleaned k a ch) g (backfill (w_nids g) md (w_nprops g)) md' in
   (exists tr, write_arrays k g md true true (init (Some (ZG a ch))) = (mkst (Some post) tr, Ok tt)) /\
   validate_structure k (Some post) = Ok tt /\
   read_to_memory k (Some post) true None None
   = Ok (mkmg md' (w_nids g) (w_eids g) (up_props (backfill (w_nids g) md (w_nprops g))) (up_props (w_eprops g))).
-Proof. exact overwrite_replaces. Qed.
+Proof. intros k a ch g md md' n e Hg Hk Hwf _ Hfm. exact (overwrite_replaces k a ch g md md' n e Hg Hk Hwf Hfm). Qed.
 Print Assumptions C06_replace.
 
 (* the same with no success premise (WriteTotal.final_metadata_total: under wf_input the metadata computation fails only on an axis
@@ -36,7 +38,7 @@ Print Assumptions C06_replace.
 From Geff Require WriteTotal.
 Theorem C06_replace_total : forall k a ch g md n e,
   ahas "geff" a = true -> (k = KPath \/ k = KObj) ->
-  wf_input g md n e -> WriteTotal.axes_have_data g md ->
+  wf_input g md n e -> ModelDomain.in_domain g md -> WriteTotal.axes_have_data g md ->
   exists md', final_metadata g md = Ok md' /\
   let post := layout (cleaned k a ch) g (backfill (w_nids g) md (w_nprops g)) md' in
   (exists tr, write_arrays k g md true true (init (Some (ZG a ch))) = (mkst (Some post) tr, Ok tt)) /\
@@ -44,7 +46,7 @@ Theorem C06_replace_total : forall k a ch g md n e,
   read_to_memory k (Some post) true None None
   = Ok (mkmg md' (w_nids g) (w_eids g) (up_props (backfill (w_nids g) md (w_nprops g))) (up_props (w_eprops g))).
 Proof.
-  intros k a ch g md n e Hg Hk Hwf Hd. destruct (WriteTotal.final_metadata_total g md n e Hwf Hd) as [md' Hfm].
+  intros k a ch g md n e Hg Hk Hwf _ Hd. destruct (WriteTotal.final_metadata_total g md n e Hwf Hd) as [md' Hfm].
   exists md'. split; [exact Hfm|]. exact (overwrite_replaces k a ch g md md' n e Hg Hk Hwf Hfm).
 Qed.
 Print Assumptions C06_replace_total.
